@@ -160,8 +160,12 @@ example : sA.req = [Elem.door] ∧ Owner sA 0 ∧ canRun sA 0 = true := by decid
 example : sZ.req = [] ∧ (∀ a, a < 3 → ¬ Owner sZ a) := by decide
 
 /-- **Deadlock freedom (agent level).** If no agent's code can run, every agent has finished all its rounds. -/
-theorem c08_no_deadlock (hwf : c.WF) (hs : Reachable c s) (hstuck : ∀ a, canRun s a = false) : ∀ a, s.pc a = Pc.done :=
-  inv_stuck_done (inv_reachable hwf hs) hstuck
+theorem c08_no_deadlock (hwf : c.WF) (hs : Reachable c s) (hstuck : ∀ a, canRun s a = false) :
+    ∀ a, s.pc a = Pc.done ∧ (a < c.n → s.round a = (c.rounds a).length) := by
+  have h := inv_reachable hwf hs
+  intro a
+  have hd := inv_stuck_done h hstuck a
+  exact ⟨hd, (h.rnd a).2.2 hd⟩
 
 /- in `sS` only the owner 0 can run (1 is blocked without its flag … ) -/
 example : canRun sS 0 = true ∧ canRun sS 1 = false := by decide
@@ -358,12 +362,15 @@ theorem c08_thread_level (hwf : c.WF) (fuel : Nat) (ts : List Nat) (hg : TGuarde
     finished and the mutex is free — the executor glue never loses a runnable coroutine (`LInv`). -/
 theorem c08_no_deadlock_threads (hwf : c.WF) (fuel : Nat) (ts : List Nat) (hg : TGuarded c fuel (init c) ts)
     (hstuck : ∀ t, enabled (trun c fuel (init c) ts) t = false) :
-    (∀ a, (trun c fuel (init c) ts).pc a = Pc.done) ∧ (∀ t, (trun c fuel (init c) ts).tmain t = TMain.finished) ∧
+    (∀ a, (trun c fuel (init c) ts).pc a = Pc.done) ∧
+    (∀ a, a < c.n → (trun c fuel (init c) ts).round a = (c.rounds a).length) ∧
+    (∀ t, (trun c fuel (init c) ts).tmain t = TMain.finished) ∧
     (trun c fuel (init c) ts).req = [] ∧ (trun c fuel (init c) ts).queue = [] := by
   obtain ⟨hs, _, hL⟩ := treachable_reachable hwf fuel ts _ (reachable_init c) (tinv_init c) (linv_init c) hg
-  obtain ⟨h1, h2⟩ := threads_stuck_done (inv_reachable hwf hs) hL hstuck
+  have h := inv_reachable hwf hs
+  obtain ⟨h1, h2⟩ := threads_stuck_done h hL hstuck
   have := (c08_relockable hwf hs).1 h1
-  exact ⟨h1, h2, this.1, this.2⟩
+  exact ⟨h1, fun a ha => (h.rnd a).2.2 (h1 a) ha, h2, this.1, this.2⟩
 
 example : TGuarded cfgEx 100 (init cfgEx) schedZ ∧ (∀ t, t < 3 → enabled (trun cfgEx 100 (init cfgEx) schedZ) t = false) ∧
     enabled (trun cfgEx 100 (init cfgEx) schedB) 0 = true := by decide
